@@ -72,7 +72,7 @@ def decode_result(r):
     if f[0] == "PERR":
         return {"kind": "PERR", "lineStart": int(f[1]), "lineEnd": int(f[2]), "charStart": int(f[3]), "utf8Start": int(f[4]),
                 "charEnd": int(f[5]), "utf8End": int(f[6]), "msg": unhx(f[7]).decode("utf-8", "replace")}
-    if f[0] in ("EERR", "ERR", "PANIC"): return {"kind": f[0], "msg": unhx(f[1]).decode("utf-8", "replace") if len(f) > 1 else ""}
+    if f[0] in ("EERR", "ERR", "PANIC", "TWINDIFF", "EMIT2DIFF"): return {"kind": f[0], "msg": unhx(f[1]).decode("utf-8", "replace") if len(f) > 1 else ""}
     if f[0] == "TOKS":
         toks = []
         body = r[5:]
